@@ -587,6 +587,12 @@ class Ints:
             return Bits.binop(s, st, op, a, b, bits)
         if isinstance(a, Ptr) or isinstance(b, Ptr):
             raise Inconclusive('pointer arithmetic in INT mode')
+        if isinstance(b, int):
+            if b == 0 and op in ('add', 'sub', 'or', 'xor', 'shl', 'lshr', 'ashr'): return a
+            if b == 1 and op in ('mul', 'udiv', 'sdiv'): return a
+        if isinstance(a, int):
+            if a == 0 and op in ('add', 'or', 'xor'): return b
+            if a == 1 and op == 'mul': return b
         if op in ('add', 'sub', 'mul'):
             x, y = s.raw(a), s.raw(b)
             if op == 'mul' and ((isinstance(x, int) and x == 0) or (isinstance(y, int) and y == 0)): return 0
